@@ -5,6 +5,8 @@ cd "$(dirname "$0")"
 chmod +x check tools/*.py 2>/dev/null || true
 command -v cargo >/dev/null
 cargo kani --version >/dev/null
+cargo +nightly --version >/dev/null          # MIR dumps (C04)
 python3-vt -c "import z3; print('z3', z3.get_version_string())"
+command -v cvc5 >/dev/null                   # thorough tier cross-check (C04)
 command -v rsync >/dev/null
 echo setup ok
